@@ -8,6 +8,11 @@ rename/replace, remove/unlink, rmdir.  Variants:
   crash_half   (write operations) half of the bytes are written, then the process dies
   enospc       operation k raises OSError(ENOSPC)   (open / mkdir / write)
   efbig_half   (write operations) half of the bytes are written, then OSError(EFBIG)
+  crash_q3 / crash_most / efbig_most   like the _half variants with 3/4 of the bytes / all but the last byte
+With cfg.buffered the files behave like buffered files whose data reaches the file system only when they
+are flushed or closed: write() is not an operation; "close_w" is, and takes the write variants (crash =
+the process dies before the flush: the file stays empty; enospc = the flush fails, nothing was written,
+close() raises; the partial variants write a prefix first).
 After a crash all in-memory state is dropped (new backend objects, mutex table, call stack) and
 the remaining calls run in the "restarted process".
 """
@@ -41,6 +46,7 @@ class Injector:
         self.ops = []
         self.fault = None      # {"op": k, "variant": v}
         self.fired = False
+        self.buffered = False
 
     def arm(self, root, fault):
         self.root, self.on, self.n, self.ops, self.fault, self.fired = root, True, 0, [], fault, False
@@ -66,15 +72,22 @@ class Injector:
             return None
         self.fired = True
         v = f["variant"]
-        if v == "crash":
+        if v == "crash" and not (is_write and self.buffered):
             raise Crash()
-        if v == "enospc":
+        if v == "enospc" and not (is_write and self.buffered):
             raise OSError(errno.ENOSPC, "No space left on device (injected)")
-        if is_write and v == "crash_half":
-            return ("half", Crash())
-        if is_write and v == "efbig_half":
-            return ("half", OSError(errno.EFBIG, "File too large (injected)"))
-        if v in ("crash_half",):
+        if is_write and self.buffered and v in ("crash", "enospc"):
+            v = v + "_empty"
+        frac = {"half": 0.5, "q3": 0.75, "most": -1}.get(v.split("_")[-1])
+        if is_write and v.startswith("crash_") and frac:
+            return (frac, Crash())
+        if is_write and v.startswith("efbig_") and frac:
+            return (frac, OSError(errno.EFBIG, "File too large (injected)"))
+        if is_write and v == "crash_empty":
+            return (0, Crash())
+        if is_write and v == "enospc_empty":
+            return (0, OSError(errno.ENOSPC, "No space left on device (injected)"))
+        if v.startswith("crash"):
             raise Crash()
         raise OSError(errno.EFBIG, "File too large (injected)")
 
@@ -84,25 +97,64 @@ _real_open = builtins.open
 _real_io_open = io.open
 
 
+def _cut(data, frac):
+    n = len(data) - 1 if frac == -1 else int(len(data) * frac)
+    return data[: max(0, n)]
+
+
 class WriteProxy:
     def __init__(self, fh, path):
         self._fh = fh
         self._path = path
+        self._buf = []          # buffered mode: data not yet handed to the file system
+        self._closed = False
 
     def write(self, data):
+        if INJ.buffered and INJ.on:
+            self._buf.append(data)
+            return len(data)
         act = INJ.op("write", self._path, is_write=True, data_len=len(data))
         if act is not None:
-            half = data[: len(data) // 2]
-            self._fh.write(half)
+            self._fh.write(_cut(data, act[0]))
             self._fh.flush()
             raise act[1]
         return self._fh.write(data)
+
+    def _drain(self, kind):
+        if not self._buf:
+            return
+        data = self._buf[0][:0].join(self._buf)
+        self._buf = []
+        act = INJ.op(kind, self._path, is_write=True, data_len=len(data))
+        if act is not None:
+            self._fh.write(_cut(data, act[0]))
+            self._fh.flush()
+            raise act[1]
+        self._fh.write(data)
+
+    def flush(self):
+        self._drain("flush_w")
+        return self._fh.flush()
+
+    def close(self):
+        if self._closed:
+            return
+        self._closed = True
+        try:
+            self._drain("close_w")
+        finally:
+            self._fh.close()
 
     def __enter__(self):
         return self
 
     def __exit__(self, *a):
-        return self._fh.__exit__(*a)
+        if a and a[0] is not None and issubclass(a[0], Crash):
+            self._buf = []           # the process is gone: buffered data never reaches the file
+            self._closed = True
+            return self._fh.__exit__(*a)
+        self.close()
+        return False
 
     def __getattr__(self, name):
         return getattr(self._fh, name)
@@ -157,6 +209,7 @@ def run_job(job):
             fault = faults.get(i)
             verif_side.log.reset()
             INJ.arm(root, fault)
+            INJ.buffered = bool(job["cfg"].get("buffered"))
             res, exc, crashed = None, None, False
             try:
                 if name == "forget":
